@@ -139,17 +139,16 @@ fn rcase() -> impl Strategy<Value = RCase> {
 
 pub fn run_check(ctx: &Ctx) {
     ctx.set_rule("floor/ceil/round/round(x, n) over integers, exact halves, values one unit in the last place around integer and half boundaries, random decimals and fractions (p / q), with and without a unit, digits -6..6, arities 0..4; oracle = mathematical definitions (div_floor; round = sign*floor(|x|+1/2)) on exact rationals; the result must be in the argument's unit; wrong arity must be an error; non-trivial = negative non-integer, exact half, digits != 0 or arity error; distinct by query text");
-    let db = shared_db();
     let corpus: Vec<(String, QCase)> = load_corpus("C10");
     let cases: Vec<QCase> = corpus.into_iter().map(|c| c.1).collect();
-    ctx.run_list("corpus", &cases, |c| judge(db, c), |c| to_json(c));
+    ctx.run_list("corpus", &cases, |c| judge(shared_db(), c), |c| to_json(c));
     let n = ctx.tier.pick(300_000u64, 5_000_000);
     ctx.run_gen(
         "generated",
         rcase,
         n,
         |c| match make_case(c) {
-            Some(q) => judge(db, &q),
+            Some(q) => judge(shared_db(), &q),
             None => CaseReport::discard("", "reference-unspecified"),
         },
         |c| make_case(c).map(|q| to_json(&q)).unwrap_or(Value::Null),
